@@ -83,6 +83,24 @@ def run_case(case):
                     rep = e
         pipeline.check_classification(rec, NAME, atoms, snap, after, clf, result, exc, repeat=rep)
         cname = type(result).__name__ if exc is None else "exception:%s" % type(exc).__name__
+        # adaptive boundary probe of the coverage clause: ask again with min_coverage just above / exactly at the
+        # coverage of the region that was found - a Surface / Material2D answer must still cover >= min_coverage
+        if exc is None and cname in ("Surface", "Material2D"):
+            nb, n = len(set(result.basis_indices)), len(atoms)
+            for mc in ((nb + 0.5) / n, nb / n):
+                if not (0 < mc <= 1):
+                    continue
+                kw2 = dict(kw, min_coverage=float(mc))
+                clf2 = matid.Classifier(**kw2)
+                _state["last"] = None
+                try:
+                    clf2.classify(atoms)
+                except Exception:
+                    pass
+                if _state["last"]:
+                    s2, a2, r2, e2 = _state["last"]
+                    pipeline.check_classification(rec, NAME, atoms, s2, a2, clf2, r2, e2)
+                    rec.note("coverage_boundary_probes")
     finally:
         core.set_recorder(None)
     out = rec.export()
